@@ -225,4 +225,57 @@ func TestCorruptions(t *testing.T) {
 	})
 }
 
+// TestLargeFlatPrograms - long but FLAT programs (nothing nested): thousands of list items,
+// statements, arguments. The bound on nesting depth must not turn into a bound on size.
+func TestLargeFlatPrograms(t *testing.T) {
+	sizes := []int{10, 4999, 5000, 5001, 12000}
+	if h.Thorough() {
+		sizes = append(sizes, 60000)
+	}
+	for _, n := range sizes {
+		items := make([]string, n)
+		for i := range items {
+			items[i] = fmt.Sprint(i % 7)
+		}
+		var stmts strings.Builder
+		for i := 0; i < n; i++ {
+			fmt.Fprintf(&stmts, "令甲%d = 乙 + %d\n", i, i%5)
+		}
+		var blocks strings.Builder
+		for i := 0; i < n/4+1; i++ {
+			fmt.Fprintf(&blocks, "如果甲 > %d 且 乙 /= 0：\n    （显示：甲、乙、%d）\n", i, i)
+		}
+		shapes := map[string]string{
+			"list-items":     "令表 = 【" + strings.Join(items, "，") + "】\n",
+			"call-arguments": "（显示：" + strings.Join(items, "、") + "）\n",
+			"statements":     stmts.String(),
+			"blocks":         blocks.String(),
+			"dictionary":     "令典 = 【“k” = " + strings.Join(items, "，“k” = ") + "】\n",
+		}
+		for name, src := range shapes {
+			pr := h.Parse(src, int64(400*len(src)+100000))
+			var fails []h.Failure
+			switch pr.Kind {
+			case h.KValue:
+				// twice the text is twice the program
+				pr2 := h.Parse(src+src, int64(800*len(src)+100000))
+				if pr2.Kind != h.KValue {
+					fails = append(fails, h.Failure{Sig: "flat/accepted-once-rejected-twice", Msg: fmt.Sprintf("%s with %d parts parses, the same text written twice does not (%s)", name, n, pr2.Kind)})
+				} else if c1, c2 := len(pr.Program.ExecBlock.StmtBlock.Children), len(pr2.Program.ExecBlock.StmtBlock.Children); c2 != 2*c1 {
+					fails = append(fails, h.Failure{Sig: "flat/statement-count", Msg: fmt.Sprintf("%s: %d top-level statements, written twice: %d", name, c1, c2)})
+				}
+			case h.KBudget:
+				fails = append(fails, h.Failure{Sig: "flat/parser-budget", Msg: fmt.Sprintf("%s with %d parts: the parser exceeded %d steps per character", name, n, 400)})
+			default:
+				msg := pr.PanicMsg
+				if pr.Err != nil {
+					msg = pr.Err.Error()
+				}
+				fails = append(fails, h.Failure{Sig: "flat/valid-program-rejected", Msg: fmt.Sprintf("a flat %s program with %d parts is rejected: %s %s", name, n, pr.Kind, msg)})
+			}
+			h.R.Case(t, "flat", fmt.Sprintf("%s-%d", name, n), map[string]any{"shape": name, "n": n}, []string{"flat-" + name}, n >= 4999, fails)
+		}
+	}
+}
+
 func TestCorpus(t *testing.T) { h.RunCorpus(t, "c03", replay) }
